@@ -10,7 +10,7 @@ def table(job):
     else: os.environ.pop("LOKY_MAX_CPU_COUNT", None)
     import joblib
     from joblib import parallel_config, effective_n_jobs, Parallel
-    out = {"cpu_count": joblib.cpu_count(), "rows": []}
+    out = {"cpu_count": joblib.cpu_count(), "cpu_count_physical": joblib.cpu_count(only_physical_cores=True), "rows": []}
     for backend, n in job["rows"]:
         try:
             with parallel_config(backend=backend):
@@ -31,7 +31,7 @@ def table_seq(job):
         os.sched_setaffinity(0, set(range(st["aff"])))
         if st["env"]: os.environ["LOKY_MAX_CPU_COUNT"] = str(st["env"])
         else: os.environ.pop("LOKY_MAX_CPU_COUNT", None)
-        out = {"cpu_count": joblib.cpu_count(), "rows": []}
+        out = {"cpu_count": joblib.cpu_count(), "cpu_count_physical": joblib.cpu_count(only_physical_cores=True), "rows": []}
         for backend, n in st["rows"]:
             try:
                 with parallel_config(backend=backend):
